@@ -744,7 +744,13 @@ func ruleC07SEID(w *World, r *Report) {
 		r.bad("R07.5", fn, "the session is created with the candidate", w.Pos(f.Pos()), "localSEID is not set")
 		return
 	}
-	r.check(sessStore.Val == ssa.Value(cand), "R07.5", fn, "the session's local SEID is the tested candidate", w.Pos(sessStore.Pos()), "same value", "localSEID is "+symOf(sessStore.Val).String()+", not the candidate that was tested")
+	// (the candidate may be carried out of the search loop in a variable: what counts is what that
+	// variable can hold where the session is built)
+	isCand := true
+	for _, v := range valuesAt(sessStore.Val, sessStore) {
+		isCand = isCand && v == ssa.Value(cand)
+	}
+	r.check(isCand, "R07.5", fn, "the session's local SEID is the tested candidate", w.Pos(sessStore.Pos()), "same value", "localSEID is "+symOf(sessStore.Val).String()+", not the candidate that was tested")
 	// guards: candidate != 0 and GetSession(candidate) not found
 	var get *ssa.Call
 	allInstrs(f, func(i ssa.Instruction) {
